@@ -36,6 +36,9 @@ func rulesC12(c *Ctx) {
 	ruleC12Truth(c)
 	ruleC12Case(c)
 	ruleC12TokenWhitespace(c)
+	// the truth value of a compound filter is the combination of the truth values of its atoms: every set predicate
+	// walks a cursor of its own
+	ruleFreshSetCursor(c, "C12.FRESHCURSOR", "boltz", "objectz")
 }
 
 // ruleC12TokenWhitespace: the grammar folds optional words into one token ("not" WS+ "in") and WS is any
